@@ -31,23 +31,34 @@ NEEDS_EXT = True      # wcsutil.py is pure python, but `import esutil` needs the
 
 CALLS6 = {"i2s_d", "i2s_n", "s2i_dr", "s2i_dp", "s2i_np", "jac"}
 CALLS7 = CALLS6 | {"s2i_nr"}
+# the documented options as part of the call: loose / tight xtol, jacobian step / distort, and a call rejected half-way
+OPT_CALLS = {"i2s_d", "s2i_dr", "s2i_dr_xl", "s2i_dr_xt", "s2i_dp", "jac", "jac_h", "jac_n", "s2i_fail"}
+ALL_CALLS = CALLS7 | OPT_CALLS
+XTOL = {"xl": 1e-3, "xt": 1e-11}
 _ALL = {"TAN", "TPV", "TANPV", "SIP"}
 BOUNDS = {
     "quick": dict(Projs=_ALL, CDIds={1, 2, 5, 9}, PixIds={1, 2, 6}, CrpixIds={2}, MaxExtra=1, SipMaxOrder=3,
                   SkyCDIds={1, 5, 7}, SkyLons={0, 10, 350}, SkyLats={0, 1, 60, 90, 140, 150, 180},
                   RefCDIds={5}, RefLonIds=set(range(1, 10)), RefLatIds=set(range(1, 9)),
                   HistCalls=CALLS6, MaxHist=4, ShortKinds={"TAN", "SIP"}, HistArgModes={"scalar", "buffer"},
+                  WorldCalls={"s2i_dr", "s2i_dp"}, WorldLen=3, WorldRelIds={1, 2, 3, 4}, WorldKinds={"TPV", "SIP"},
                   ReprCalls={"i2s_d", "s2i_dr", "s2i_dp", "s2i_np", "jac"}, ReprKinds={"TAN", "TPV", "SIP"}),
     "thorough": dict(Projs=_ALL, CDIds={1, 2, 5, 7, 9, 12}, PixIds=set(range(1, 6)), CrpixIds={1, 2}, MaxExtra=1, SipMaxOrder=4,
                      SkyCDIds=set(range(1, 9)), SkyLons={0, 10, 90, 180, 270, 350, 359},
                      SkyLats={0, 1, 30, 45, 60, 90, 120, 135, 140, 150, 175, 180},
                      RefCDIds={1, 5, 9}, RefLonIds=set(range(1, 10)), RefLatIds=set(range(1, 9)),
                      HistCalls=CALLS7, MaxHist=4, ShortKinds=set(), HistArgModes={"scalar", "buffer"},
+                     WorldCalls={"s2i_dr", "s2i_dp", "jac"}, WorldLen=3, WorldRelIds=set(range(1, 9)), WorldKinds={"TPV", "SIP"},
                      ReprCalls=CALLS7, ReprKinds={"TAN", "TPV", "SIP"}),
 }
 # thorough, second class run: pairs of coefficients on a smaller pixel / CD product
 PAIRS = dict(CDIds={2, 5, 9, 12}, PixIds={1, 3, 6}, CrpixIds={2}, MaxExtra=2, SipMaxOrder=3, OrdVariety=False)
-FIXED = dict(Repaired=True, PVMapVariant="pinned", HistVariant="pinned", PolyVariant="pinned", OrdVariety=True, DoExport=False)
+FIXED = dict(Repaired=True, PVMapVariant="pinned", HistVariant="pinned", PolyVariant="pinned", OrdVariety=True, DoExport=False,
+             HistKinds={"TAN", "TPV", "SIP"}, WorldVariant="pinned")
+# second history run: the option calls (one call shorter); long random histories by tlc -simulate
+OPT_HIST = {"quick": dict(HistCalls=OPT_CALLS - {"i2s_d", "jac_n"}, MaxHist=3, ShortKinds={"TAN", "SIP"}, HistArgModes={"scalar"}),
+            "thorough": dict(HistCalls=OPT_CALLS, MaxHist=4, ShortKinds={"TAN", "SIP"}, HistArgModes={"scalar"})}
+DEEP = {"quick": dict(num=40, depth=16), "thorough": dict(num=400, depth=30)}
 
 
 def _consts(tier, **over):
@@ -394,9 +405,43 @@ HIST_SKYPIX = [(1500.5, 300.25), (100.25, 3900.5), (1900.0, 77.5), (1024.5, 2049
 HIST_CRVALS = [(10.25, 20.5), (359.9999999, -45.0), (123.0, 89.9)]
 
 
-def hist_header(hk, hidx):
+def hist_header(hk, hidx, rel="base"):
+    """rel: the header of another object related to the base one - "same": identical; "cutout": the same coefficients,
+    CRPIX shifted and NAXIS 128 x 128 (a postage stamp of the same exposure); "cd": CD rotated by 90 degrees and
+    halved; "crval": another reference point"""
     rng = random.Random(1000 * hidx + {"TAN": 1, "TPV": 2, "SIP": 3}[hk])
-    return L.realistic_header(rng, hk, crval=HIST_CRVALS[hidx % len(HIST_CRVALS)], crpix=(1000.5 + 37 * hidx, 2100.25))
+    hdr = L.realistic_header(rng, hk, crval=HIST_CRVALS[hidx % len(HIST_CRVALS)], crpix=(1000.5 + 37 * hidx, 2100.25))
+    if rel in ("base", "same"):
+        return hdr
+    hdr = dict(hdr)
+    if rel == "cutout":
+        hdr.update(naxis1=128, naxis2=128, crpix1=hdr["crpix1"] - 940.0, crpix2=hdr["crpix2"] - 2030.0)
+    elif rel == "cd":
+        hdr.update(cd1_1=-0.5 * hdr["cd2_1"], cd1_2=-0.5 * hdr["cd2_2"], cd2_1=0.5 * hdr["cd1_1"], cd2_2=0.5 * hdr["cd1_2"])
+    elif rel == "crval":
+        hdr.update(crval1=(hdr["crval1"] + 5.0) % 360.0, crval2=max(-89.0, hdr["crval2"] - 3.0))
+    else:
+        raise MachineryError("unknown header relation %s" % rel)
+    return hdr
+
+
+def _in_image(hdr, pix):
+    """the position of the sequence scaled into the image of this header"""
+    nx, ny = hdr["naxis1"], hdr["naxis2"]
+    return (1.0 + (pix[0] - 1.0) * (nx - 1) / (L.NAXIS[0] - 1), 1.0 + (pix[1] - 1.0) * (ny - 1) / (L.NAXIS[1] - 1))
+
+
+_MODCODE = {}
+
+
+def reset_world():
+    """fresh process state as far as wcsutil is concerned: the module is executed again (module-level variables,
+    caches and memoised functions start empty; objects made earlier keep working on the re-initialised module)"""
+    mod = _wcs()
+    if _MODCODE.get("file") != mod.__file__:
+        with open(mod.__file__) as f:
+            _MODCODE.update(file=mod.__file__, code=compile(f.read(), mod.__file__, "exec"))
+    exec(_MODCODE["code"], mod.__dict__)       # what importlib.reload does, without compiling the source every time
 
 
 def _hist_call(w, call, a, b):
@@ -407,13 +452,24 @@ def _hist_call(w, call, a, b):
         return w.image2sky(a, b, distort=False)
     if call == "jac":
         return w.get_jacobian(a, b)
+    if call == "jac_h":
+        return w.get_jacobian(a, b, step=0.5)
+    if call == "jac_n":
+        return w.get_jacobian(a, b, distort=False)
+    if call == "s2i_fail":       # rejected half-way: arrays of unequal length (the first element is processed first)
+        a0, b0 = float(np.ravel(a)[0]), float(np.ravel(b)[0])
+        return w.sky2image(np.array([a0, a0], dtype="f8"), np.array([b0], dtype="f8"))
     distort = call[4] == "d"
     find = call[5] == "r"
+    if len(call) > 6:
+        return w.sky2image(a, b, distort=distort, find=find, xtol=XTOL[call[7:]])
     return w.sky2image(a, b, distort=distort, find=find)
 
 
-def _hist_vals(call, k, sky):
-    return sky if call.startswith("s2i") else HIST_PIX[k]
+def _hist_vals(call, k, sky, hdr=None):
+    if call.startswith("s2i"):
+        return sky
+    return HIST_PIX[k % 4] if hdr is None else _in_image(hdr, HIST_PIX[k % 4])
 
 
 def _try(f):
@@ -428,27 +484,30 @@ _FRESH = {}
 _SKIES = {}
 
 
-def _hist_sky(hk, hidx, k):
+def _hist_sky(hk, hidx, k, rel="base"):
     """the sky target of step k: where a TAN header with the same linear part puts HIST_SKYPIX[k] (the header kinds
     share CRVAL / CRPIX / CD up to the seed, any sky position inside the image serves)"""
-    key = (hk, hidx, k)
+    key = (hk, hidx, k % 4, rel)
     if key not in _SKIES:
-        hdr = dict(hist_header(hk, hidx))
-        hdr = {kk: v for kk, v in hdr.items() if not kk.startswith(("pv", "a_", "b_", "ap_", "bp_"))}
+        full = hist_header(hk, hidx, rel)
+        hdr = {kk: v for kk, v in full.items() if not kk.startswith(("pv", "a_", "b_", "ap_", "bp_"))}
         hdr["ctype1"], hdr["ctype2"] = "RA---TAN", "DEC--TAN"
-        _SKIES[key] = tuple(float(v) for v in _wcs().WCS(hdr).image2sky(*HIST_SKYPIX[k]))
+        _SKIES[key] = tuple(float(v) for v in _wcs().WCS(hdr).image2sky(*_in_image(full, HIST_SKYPIX[k % 4])))
     return _SKIES[key]
 
 
-def _fresh(hk, hidx, call, k, mode):
-    key = (hk, hidx, call, k, mode)
+def _fresh(hk, hidx, call, k, mode, rel="base"):
+    """what a fresh object in a fresh process state returns for the call with the arguments of position k"""
+    k = k % 4
+    key = (hk, hidx, call, k, mode, rel)
     if key not in _FRESH:
-        W = _wcs().WCS
-        hdr = hist_header(hk, hidx)
-        sky = _hist_sky(hk, hidx, k)
-        va, vb = _hist_vals(call, k, sky)
+        hdr = hist_header(hk, hidx, rel)
+        sky = _hist_sky(hk, hidx, k, rel)
+        va, vb = _hist_vals(call, k, sky, hdr)
 
         def one():
+            reset_world()
+            W = _wcs().WCS
             if mode == "buffer":
                 return _try(lambda: _hist_call(W(hdr), call, np.array([va], dtype="f8"), np.array([vb], dtype="f8")))
             return _try(lambda: _hist_call(W(hdr), call, va, vb))
@@ -467,7 +526,7 @@ def _hist_rel(call, got, want):
         return "same" if got[1] == want[1] else "diff"
     if [v.tobytes() for v in got[1]] == [v.tobytes() for v in want[1]]:
         return "same"
-    r = L.sky_rel(got[1], want[1]) if call.startswith("i2s") else _jac_rel(got[1], want[1]) if call == "jac" else L.pix_rel(got[1], want[1])
+    r = L.sky_rel(got[1], want[1]) if call.startswith("i2s") else _jac_rel(got[1], want[1]) if call.startswith("jac") else L.pix_rel(got[1], want[1])
     return "close" if r in ("same", "close") else "diff"
 
 
@@ -481,7 +540,8 @@ def obs_history(args):
     bufa, bufb = np.zeros(1, dtype="f8"), np.zeros(1, dtype="f8")
     try:
         with np.errstate(all="ignore"):
-            w = W(hist_header(hk, hidx))
+            reset_world()
+            w = _wcs().WCS(hist_header(hk, hidx))
             for k, call in enumerate(calls):
                 want, sky = _fresh(hk, hidx, call, k, mode)
                 va, vb = _hist_vals(call, k, sky)
@@ -496,6 +556,48 @@ def obs_history(args):
     finally:
         cm.__exit__(None, None, None)
     return {"id": rid, "kind": "history", "c": {"hk": hk, "calls": list(calls), "mode": mode}, "o": {"steps": steps}, "x": {"hidx": hidx}}
+
+
+def obs_world(args):
+    """several objects alive in one process, built from related headers; calls interleaved as TLC enumerated them"""
+    rid, (hk, hidx, rels, calls) = args
+    cm = _quiet()
+    steps = []
+    try:
+        with np.errstate(all="ignore"):
+            reset_world()
+            W = _wcs().WCS
+            allrels = ["base"] + list(rels)
+            objs = [W(hist_header(hk, hidx, rel)) for rel in allrels]
+            for k, cl in enumerate(calls):
+                o, call = int(cl["o"]), cl["call"]
+                rel = allrels[o - 1]
+                want, sky = _fresh(hk, hidx, call, k, "scalar", rel)
+                va, vb = _hist_vals(call, k, sky, hist_header(hk, hidx, rel))
+                got = _try(lambda: _hist_call(objs[o - 1], call, va, vb))
+                steps.append({"o": o, "call": call, "rel": _hist_rel(call, got, want)})
+    finally:
+        cm.__exit__(None, None, None)
+    return {"id": rid, "kind": "world", "c": {"hk": hk, "rels": list(rels), "calls": [{"o": int(cl["o"]), "call": cl["call"]} for cl in calls]},
+            "o": {"steps": steps}, "x": {"hidx": hidx}}
+
+
+def subprocess_reference(hk, hidx, rel, call, k):
+    """the same reference computed in a REAL fresh interpreter - validates reset_world()"""
+    import json
+    import subprocess
+    import sys
+    hdr = hist_header(hk, hidx, rel)
+    va, vb = _hist_vals(call, k, _hist_sky(hk, hidx, k, rel), hdr)
+    code = ("import sys, json; sys.path[:0] = json.loads(sys.argv[1])\n"
+            "import numpy as np, warnings; warnings.simplefilter('ignore'); np.seterr(all='ignore')\n"
+            "from vh.adapters import c10\n"
+            "hdr = c10.hist_header(sys.argv[2], int(sys.argv[3]), sys.argv[4])\n"
+            "from esutil import wcsutil\n"
+            "r = c10._try(lambda: c10._hist_call(wcsutil.WCS(hdr), sys.argv[5], float.fromhex(sys.argv[6]), float.fromhex(sys.argv[7])))\n"
+            "print('REF', r[0], ' '.join(v.tobytes().hex() for v in r[1]) if r[0] == 'ok' else r[1])\n")
+    return subprocess.Popen([sys.executable, "-c", code, json.dumps(sys.path), hk, str(hidx), rel, call, float(va).hex(), float(vb).hex()],
+                            stdout=subprocess.PIPE, stderr=subprocess.DEVNULL, text=True)
 
 
 # ---- input representations ---------------------------------------------------------------------------------------
@@ -699,6 +801,10 @@ def signature(r, clause):
     if k == "history":
         bad = sorted({s["call"] for s in o["steps"] if s["rel"] != "same"})
         return "history|%s|%s,%s%s" % (clause, c["hk"], "+".join(bad), ",reused_argument_buffer" if c.get("mode") == "buffer" else "")
+    if k == "world":
+        bad = sorted({s["call"] for s in o["steps"] if s["rel"] != "same"})
+        badrel = sorted({(["base"] + list(c["rels"]))[s["o"] - 1] for s in o["steps"] if s["rel"] != "same"})
+        return "world|%s|%s,%s,object=%s" % (clause, c["hk"], "+".join(bad), "+".join(badrel))
     if k == "repr":
         entry = {"i2s": "image2sky", "s2i": "sky2image", "jac": "get_jacobian"}[c["call"][:3]]
         # the structural class: the element type alone when the plain representation of that type (contiguous array,
@@ -728,6 +834,8 @@ def replay_case(r):
         return {"kind": k, "plan": x_["plan"], "observed": {"o": r["o"], "scalar": x_.get("scalar"), "array": x_.get("array"), "msg": x_.get("msg")}}
     if k == "history":
         return {"kind": k, "hk": r["c"]["hk"], "hidx": x_["hidx"], "calls": r["c"]["calls"], "mode": r["c"].get("mode", "scalar"), "observed": r["o"]}
+    if k == "world":
+        return {"kind": k, "hk": r["c"]["hk"], "hidx": x_["hidx"], "rels": r["c"]["rels"], "calls": r["c"]["calls"], "observed": r["o"]}
     if k == "repr":
         return {"kind": k, "c": r["c"], "hidx": x_["hidx"],
                 "observed": {"o": r["o"], "got": x_.get("got"), "reference": x_.get("reference"), "values": x_.get("values"), "msg": x_.get("msg")}}
@@ -1007,14 +1115,41 @@ def run(ctx):
                         workers=1, allow_violation=True, coverage=False)
             if "HistoryIndependent" not in r.violated:
                 raise MachineryError("self-test failed: %s variant not caught" % variant)
+        for variant, over in (("solver_cached", dict(HistCalls=OPT_CALLS, MaxHist=2, ShortKinds=set(), HistArgModes={"scalar"})),):
+            r = ctx.tlc("WcsMC.tla", what="self-test: %s object violates HistoryIndependent" % variant,
+                        cfg_text=cfg(constants=dict(consts, HistVariant=variant, **over), init="InitH", next_="NextH", invariants=["HistoryIndependent"]),
+                        workers=1, allow_violation=True, coverage=False)
+            if "HistoryIndependent" not in r.violated:
+                raise MachineryError("self-test failed: %s variant not caught" % variant)
         ctx.log("replaying histories")
         hs = _export(ctx, consts, "export every call sequence of length %d" % B["MaxHist"], "InitH", "NextH", tag="HIST")
+        # the documented options of the calls (loose / tight xtol, jacobian step / distort) and a call rejected half-way
+        oc = dict(consts, **OPT_HIST[tier])
+        ro = ctx.tlc("WcsMC.tla", what="history machine with option calls and a rejected call: result = fresh object's + export",
+                     cfg_text=cfg(constants=dict(oc, DoExport=True), init="InitH", next_="NextH", invariants=["HistoryIndependent"], constraints=["Export"]),
+                     workers=1, require=["ChooseKind", "Call"], timeout=3000)
+        hopt = _dedupe(ro.records.get("HIST", []))
+        if ro.garbled or not any("s2i_dr_xl" in h["calls"][:-1] for h in hopt) or not any("s2i_fail" in h["calls"][:-1] for h in hopt):
+            raise MachineryError("option-call histories: no sequence with a loose-xtol / rejected call before the last call")
+        # long random histories over the whole alphabet (tlc -simulate), rejected calls interleaved
+        D = DEEP[tier]
+        rd = ctx.tlc("WcsMC.tla", what="simulate long object histories (depth %d)" % D["depth"],
+                     cfg_text=cfg(constants=dict(consts, DoExport=True, HistCalls=ALL_CALLS, MaxHist=D["depth"], ShortKinds=set(),
+                                                 HistKinds={"TPV", "SIP"}), init="InitH", next_="NextH",
+                                  invariants=["HistoryIndependent"], constraints=["Export"]),
+                     workers=1, coverage=False, timeout=3000, simulate="num=%d" % D["num"],
+                     extra=["-depth", str(D["depth"] + 3), "-seed", str(1000 + seed)])
+        deep = _dedupe(rd.records.get("HIST", []))
+        if len(deep) < D["num"] // 3 or any(len(h["calls"]) < D["depth"] - 1 for h in deep):
+            raise MachineryError("simulation produced %d long histories" % len(deep))
         nhdr = 1 if ctx.quick else 3
         plan = [(h["hk"], hidx, h["calls"], h["mode"]) for h in hs for hidx in range(nhdr)]
+        plan += [(h["hk"], 0, h["calls"], h["mode"]) for h in hopt]
+        plan += [(h["hk"], i % 3, h["calls"], h["mode"]) for i, h in enumerate(deep)]
         cm = _quiet()          # the fresh-object references are computed once, before the fork
         try:
             with np.errstate(all="ignore"):
-                for key in sorted({(hk_, hidx, call, k, mode) for (hk_, hidx, calls, mode) in plan for k, call in enumerate(calls)}):
+                for key in sorted({(hk_, hidx, call, k % 4, mode) for (hk_, hidx, calls, mode) in plan for k, call in enumerate(calls)}):
                     _fresh(*key)
         finally:
             cm.__exit__(None, None, None)
@@ -1023,6 +1158,46 @@ def run(ctx):
             ctx.count({"kind": "history", "c": r["c"], "hidx": r["x"]["hidx"]})
         ctx.sample({"history": hrecs[len(hrecs) // 2]["c"], "observed": hrecs[len(hrecs) // 2]["o"]})
         recs += hrecs
+        ctx.note(history_option_sequences=len(hopt), history_long_sequences=len(deep), history_long_depth=D["depth"])
+
+        # ---- the world: several objects alive in one process -------------------------------------------------------
+        ctx.tlc("WcsMC.tla", what="world machine: every result equals the fresh object's in a fresh process (all interleavings)",
+                cfg_text=cfg(constants=consts, init="InitW", next_="NextW", invariants=["WorldIndependent"]),
+                workers=8, require=["ChooseWorld", "CallW"], timeout=3000)
+        r = ctx.tlc("WcsMC.tla", what="self-test: a module-level memo of the inverse fit violates WorldIndependent",
+                    cfg_text=cfg(constants=dict(consts, WorldVariant="module_memo", WorldLen=2, WorldKinds={"TPV"}), init="InitW", next_="NextW",
+                                 invariants=["WorldIndependent"]), workers=1, allow_violation=True, coverage=False)
+        if "WorldIndependent" not in r.violated:
+            raise MachineryError("self-test failed: module_memo variant not caught")
+        ws = _export(ctx, consts, "export every interleaving of %d calls on related objects" % B["WorldLen"], "InitW", "NextW", tag="WORLD")
+        wplan = [(w_["hk"], hidx, w_["rels"], w_["calls"]) for w_ in ws for hidx in range(1)]
+        # reset_world() must be as good as a new interpreter: a few references are recomputed in real fresh processes
+        probes = [("TPV", 0, "cutout", "s2i_dp", 1), ("SIP", 0, "base", "s2i_dr", 0), ("TPV", 0, "cd", "s2i_dp", 2), ("TPV", 0, "base", "jac", 3)]
+        procs = [(pk, subprocess_reference(*pk)) for pk in probes]
+        cm = _quiet()
+        try:
+            with np.errstate(all="ignore"):
+                allrel = lambda rels, o: (["base"] + list(rels))[int(o) - 1]  # noqa
+                for key in sorted({(hk_, hidx, cl["call"], k % 4, "scalar", allrel(rels, cl["o"])) for (hk_, hidx, rels, calls) in wplan
+                                   for k, cl in enumerate(calls)}):
+                    _fresh(*key)
+                for pk, pr in procs:
+                    out = pr.communicate(timeout=300)[0]
+                    line = [ln for ln in out.splitlines() if ln.startswith("REF ")]
+                    want = _fresh(pk[0], pk[1], pk[3], pk[4], "scalar", pk[2])[0]
+                    mine = "REF %s %s" % (want[0], " ".join(v.tobytes().hex() for v in want[1]) if want[0] == "ok" else want[1])
+                    if not line or line[0].strip() != mine.strip():
+                        raise MachineryError("reset_world() reference differs from a real fresh process for %s: %s vs %s" % (pk, line[:1], mine))
+        finally:
+            cm.__exit__(None, None, None)
+        wrecs = pmap(obs_world, list(zip(ids(len(wplan)), wplan)))
+        for r in wrecs:
+            ctx.count({"kind": "world", "c": r["c"], "hidx": r["x"]["hidx"]})
+        ctx.sample({"world": wrecs[len(wrecs) // 2]["c"], "observed": wrecs[len(wrecs) // 2]["o"]})
+        recs += wrecs
+        ctx.note(world_sequences=len(wrecs), world_steps_bitwise_identical=sum(1 for r in wrecs for s_ in r["o"]["steps"] if s_["rel"] == "same"),
+                 world_steps=sum(len(r["o"]["steps"]) for r in wrecs))
+        probe["world"] = next((r for r in wrecs if all(s_["rel"] == "same" for s_ in r["o"]["steps"])), None)
         nsteps = sum(len(r["o"]["steps"]) for r in hrecs)
         if not any(r["c"]["mode"] == "buffer" for r in hrecs):
             raise MachineryError("no history with a re-used argument buffer was exported")
@@ -1060,13 +1235,18 @@ def run(ctx):
             st = [dict(s) for s in p["o"]["steps"]]
             st[0]["rel"] = "close"          # different bits within the tolerance: still a dependence on the history
             corrupt.append(({"id": 8, "kind": "history", "c": p["c"], "o": {"steps": st}}, "result_depends_on_history"))
+        p = probe.get("world")
+        if p:
+            st = [dict(s_) for s_ in p["o"]["steps"]]
+            st[-1]["rel"] = "close"
+            corrupt.append(({"id": 11, "kind": "world", "c": p["c"], "o": {"steps": st}}, "result_depends_on_other_objects"))
         p = probe.get("repr")
         if p:
             corrupt.append(({"id": 9, "kind": "repr", "c": p["c"], "o": dict(p["o"], rel=list(p["o"]["rel"][:-1]) + ["off"])}, "representation_changes_result"))
             corrupt.append(({"id": 10, "kind": "repr", "c": p["c"], "o": {"err": "TypeError", "rel": []}}, "unexpected_error"))
         originals = [{"id": 100 + i, "kind": probe[k]["kind"], "c": probe[k]["c"], "o": probe[k]["o"]}
                      for i, k in enumerate(sorted(probe)) if probe[k]]
-        if len(corrupt) < 10:
+        if len(corrupt) < 11:
             raise MachineryError("binding self-test: no accepted record of some kind to corrupt (%s)" % sorted(k for k in probe if probe[k]))
         saved = ctx.traces
         rej = tracecheck.validate(ctx, "WcsTrace.tla", [c for c, _ in corrupt] + originals, what="self-test: corrupted records rejected", workers=1)
@@ -1086,7 +1266,11 @@ def run(ctx):
                 "seeded larger classes evaluated by TLC; realistic-header round trips x (distort, find); scalar-vs-array; input representations: "
                 "every call x element type (python float/int, f8, f4, i8, i4, i2, u2) x container (scalar, array, list, 0-d, 2-d) x layout "
                 "(contiguous, strided, reversed, byte-swapped, read-only) x 3 header kinds against the python-float scalar call; every call "
-                "sequence of length %d over %d calls x 3 header kinds x (python scalars | one caller buffer overwritten in place, one call shorter).  A case is distinct by its abstract record + concretisation index "
+                "sequence of length %d over %d calls x 3 header kinds x (python scalars | one caller buffer overwritten in place, one call shorter); every "
+                "sequence one call shorter over the alphabet with the documented options (xtol loose/default/tight, jacobian step/distort) and a call "
+                "rejected half-way; long random sequences (tlc -simulate) over the whole alphabet; every interleaving of 3 calls on two (thorough: three) "
+                "objects alive in one process built from related headers (same / cutout / other CD / other CRVAL), each result against a fresh object "
+                "in a re-initialised module (validated against real fresh interpreters).  A case is distinct by its abstract record + concretisation index "
                 "and non-trivial always (each performs at least one transformation)" %
                 (B["MaxExtra"] if tier == "quick" else 2, B["SipMaxOrder"], len(L.SCALES), len(L.CRVALS), len(L.CRPIX_BASE),
                  B["MaxHist"], len(B["HistCalls"])))
@@ -1097,6 +1281,7 @@ def run(ctx):
         "equality with the FITS reference at arbitrary pixels is decided through class equivalence with a pure-TAN header plus exact anchors; the arctan / rotation numerics between anchors and the accuracy of the fitted inverse polynomial (find=False) are not decided (finite only)",
         "separations are great-circle separations (a longitude difference counts with cos(latitude)); CRVAL2 = +90 exactly: LONPOLE 180 (documented default) and the FITS default 0 both accepted",
         "input representations: the value of an argument is the exact number it denotes (float32 included), the result must agree with the python-float scalar call within the call's tolerance; python lists, 0-d and 2-d arrays may be rejected (the documentation promises scalars or arrays) but must not give a different value",
+        "fresh process state is obtained by re-executing the wcsutil module (importlib.reload) before every reference and every multi-object history; four references per run are recomputed in real fresh interpreters and must agree bit for bit",
         "history independence is demanded bit for bit (used object vs fresh object, same deterministic code, same arguments; two fresh objects are first checked to agree)",
     ]
     ctx.trusted_base = ctx.trusted_base + ["long-double great-circle separation kernel (validated on the lattice every run)",
@@ -1122,6 +1307,8 @@ def replay(ctx, case):
         r = obs_scalar((1, tuple(case["plan"])))
     elif k == "history":
         r = obs_history((1, (case["hk"], case["hidx"], case["calls"], case.get("mode", "scalar"))))
+    elif k == "world":
+        r = obs_world((1, (case["hk"], case["hidx"], case["rels"], case["calls"])))
     elif k == "repr":
         r = obs_repr((1, (case["c"], case["hidx"])))
         repr_mark_base([r, obs_repr((2, (_repr_base(case["c"]), case["hidx"])))])
